@@ -5,6 +5,7 @@ simulated store can flip bits, substitute / insert / delete bytes, tear
 fault := ["flip", bit] | ["trunc", n] | ["subst", off, byte] | ["ins", off, byte] | ["del", off]
        | ["field", name, hex-bytes]   (replace the field's content, same length or not)
        | ["garbage", hex-bytes]       (whole record replaced)
+       | ["algsub", last OID arc, params kind, content length, last IV byte]   (algorithm substitution, multi-site)
 A stored record may suffer several faults (applied in order).
 """
 from __future__ import annotations
@@ -39,6 +40,20 @@ def apply_fault(data: bytes, fault, offsets: t.Optional[dict] = None) -> bytes:
         return bytes(b)
     if kind == "garbage":
         return bytes.fromhex(fault[1])
+    if kind == "algsub":
+        # algorithm substitution: the (unauthenticated) content-encryption AlgorithmIdentifier is rewritten to another
+        # AES mode of the NIST arc, with matching-looking parameters, and the content cut to whole blocks.
+        from ref import cms, der
+
+        _k, arc_last, params_kind, content_len, iv_last = fault
+        p = cms.parse_blob(data)
+        nonce = p["gcm_nonce"]
+        iv16 = (nonce + b"\x00\x00\x00" + bytes([iv_last & 0xFF]))[:16]
+        params = {"iv16": der.octets(iv16), "iv12": der.octets(nonce), "gcm": der.seq(der.octets(nonce), der.enc_int(16)),
+                  "null": b"\x05\x00", "absent": b""}[params_kind]
+        cea = der.seq(der.enc_oid("2.16.840.1.101.3.4.1.%d" % arc_last), params)
+        content = p["enc_content"] if content_len < 0 else p["enc_content"][:content_len].ljust(content_len, b"\x5a")
+        return cms.build_blob(p["key_identifier_raw"], p["sid"], p["enc_cek"], nonce, content, p["layout"] == "in_envelope", cea_raw=cea)
     raise ValueError(fault)
 
 
